@@ -541,6 +541,11 @@ def reaching_unique_def(fi, name, use_astnode):
         # paths from bn to the use that do not execute bn again (a later loop iteration re-executes the dominating binding first)
         r = c.reachable_after(bn, blocked=[use, bn]) if bn is not c.entry else c.reachable(blocked=[use])
         clean = True
+        # a re-definition behind the use that leads back to the use (loop-carried: `d = 1; while ..: use(d); d += 1`) reaches it too
+        after_use = c.reachable_after(use, blocked=[bn] if bn is not c.entry else [])
+        for o in others:
+            if o.idx in after_use and (use.idx in c.reachable_after(o, blocked=[bn] if bn is not c.entry else []) or o is use):
+                clean = False
         for o in others:
             if o.idx in r:
                 # o reachable from bn before use; does use remain reachable from o without passing bn again?
